@@ -243,7 +243,7 @@ Definition rewrite_one (skip : N) (old new : string) (x : watch) : watch :=
        else x.
 
 Theorem rewrite_paths_exact W skip old new :
-  t_path (rewrite_paths W skip old new) = t_path W ∧
+  t_path (rewrite_paths W skip old new) = rekey_paths (t_wd W) (t_path W) skip old new ∧
   w_ring (rewrite_paths W skip old new) = w_ring W ∧
   ∀ wd, t_wd (rewrite_paths W skip old new) !! wd =
     (λ x, if (w_wd x =? skip) || String.eqb (w_path x) new then x
@@ -334,6 +334,100 @@ Proof.
   intros Ha Hab Hl Hpath. eapply rewrite_paths_outside; [done|].
   rewrite Hpath. apply not_true_is_false. intro Hu.
   by apply PathLexProofs.siblings_not_confused_strong in Hu.
+Qed.
+
+(* ------------------------------------------------------------------ *)
+(* 3b. the path index is re-keyed together with the watch paths        *)
+(* ------------------------------------------------------------------ *)
+
+(* where a path ends up when [old] is renamed to [new] *)
+Definition moved_path (old new p : string) : string :=
+  if is_under p old then replace_prefix p old new else p.
+
+Lemma rewrite_one_repathed skip old new x :
+  rewrite_one skip old new x =
+    if repathed skip old new x
+    then mkWatch (w_wd x) (w_flags x) (replace_prefix (w_path x) old new) (w_rec x) else x.
+Proof.
+  unfold rewrite_one, repathed. destruct (_ || _); [done|]. cbn [negb andb]. by destruct (is_under _ _).
+Qed.
+
+Lemma foldr_insert_notin {A B} `{Countable Key} (f : A → Key) (g : A → B) (l : list A) (m : gmap Key B) k :
+  k ∉ f <$> l → foldr (λ a m, <[f a := g a]> m) m l !! k = m !! k.
+Proof.
+  induction l as [|a l IH]; [done|]. rewrite fmap_cons, not_elem_of_cons. intros [Hne Hnin].
+  cbn [foldr]. rewrite lookup_insert_ne by done. by apply IH.
+Qed.
+
+Lemma foldr_insert_in {A B} `{Countable Key} (f : A → Key) (g : A → B) (l : list A) (m : gmap Key B) a :
+  NoDup (f <$> l) → a ∈ l → foldr (λ a m, <[f a := g a]> m) m l !! f a = Some (g a).
+Proof.
+  induction l as [|b l IH]; [by intros _ ?%elem_of_nil|].
+  rewrite fmap_cons, NoDup_cons. intros [Hnin Hnd] [->|Hin]%elem_of_cons; cbn [foldr].
+  - by rewrite lookup_insert.
+  - rewrite lookup_insert_ne; [by apply IH|]. intros Heq. apply Hnin. rewrite Heq.
+    apply elem_of_list_fmap. eauto.
+Qed.
+
+(* When the index is exact (its keys are the paths of the watches), the skip conditions of the loop do not
+   bite, and no re-pathed watch lands on the path of another watch: the re-keyed index is exact again, for
+   the new paths.  No key of the old location is left behind. *)
+Theorem rekey_paths_index twd tpath skip old new :
+  (∀ k wd, tpath !! k = Some wd ↔ ∃ x, twd !! wd = Some x ∧ w_path x = k) →
+  (∀ wd x, twd !! wd = Some x → repathed skip old new x = is_under (w_path x) old) →
+  (∀ wd wd' x x', twd !! wd = Some x → twd !! wd' = Some x' →
+     moved_path old new (w_path x) = moved_path old new (w_path x') → w_path x = w_path x') →
+  ∀ k wd, rekey_paths twd tpath skip old new !! k = Some wd ↔
+          ∃ x, twd !! wd = Some x ∧ moved_path old new (w_path x) = k.
+Proof.
+  intros Hidx Hrep Hinj k wd. unfold rekey_paths.
+  set (moved := filter (λ kx : N * watch, repathed skip old new kx.2 = true) (map_to_list twd)).
+  set (kept := filter _ tpath).
+  set (f := λ kx : N * watch, replace_prefix (w_path kx.2) old new).
+  change (foldr _ kept moved) with (foldr (λ a m, <[f a := a.1]> m) kept moved).
+  assert (Hmoved : ∀ w x, (w, x) ∈ moved ↔ twd !! w = Some x ∧ is_under (w_path x) old = true).
+  { intros w x. unfold moved. rewrite elem_of_list_filter, elem_of_map_to_list. cbn [snd]. split.
+    - intros [Hr Hx]. split; [done|]. by rewrite <- (Hrep w x Hx).
+    - intros [Hx Hu]. split; [|done]. by rewrite (Hrep w x Hx). }
+  assert (Hf : ∀ w x, (w, x) ∈ moved → f (w, x) = moved_path old new (w_path x)).
+  { intros w x [_ Hu]%Hmoved. unfold f, moved_path. cbn [snd]. by rewrite Hu. }
+  assert (Hpinj : ∀ w w' x x', twd !! w = Some x → twd !! w' = Some x' → w_path x = w_path x' → w = w').
+  { intros w w' x x' Hx Hx' Heq.
+    assert (tpath !! w_path x = Some w) as H1 by (apply Hidx; eauto).
+    assert (tpath !! w_path x = Some w') as H2 by (apply Hidx; exists x'; eauto). congruence. }
+  assert (Hnd : NoDup (f <$> moved)).
+  { apply NoDup_fmap_2_strong.
+    - intros [w x] [w' x'] Hin Hin' Heq. rewrite (Hf _ _ Hin), (Hf _ _ Hin') in Heq.
+      apply Hmoved in Hin as [Hx _]. apply Hmoved in Hin' as [Hx' _].
+      pose proof (Hinj _ _ _ _ Hx Hx' Heq) as Hp. pose proof (Hpinj _ _ _ _ Hx Hx' Hp) as ->.
+      congruence.
+    - unfold moved. apply NoDup_filter, NoDup_map_to_list. }
+  assert (Hkept : ∀ k' w, kept !! k' = Some w ↔
+            tpath !! k' = Some w ∧ ∀ x, twd !! w = Some x → w_path x = k' → is_under k' old = false).
+  { intros k' w. unfold kept. rewrite map_filter_lookup_Some. cbn [fst snd]. split.
+    - intros [Hk Hc]. split; [done|]. intros x Hx Hp. rewrite Hx in Hc.
+      rewrite (Hrep w x Hx), Hp, String.eqb_refl, andb_true_r in Hc. by apply negb_true_iff in Hc.
+    - intros [Hk Hc]. split; [done|]. destruct (twd !! w) as [x|] eqn:Hx; [|done].
+      apply negb_true_iff. destruct (String.eqb_spec (w_path x) k') as [Hp|Hp]; [|apply andb_false_r].
+      rewrite andb_true_r, (Hrep w x Hx), Hp. by apply (Hc x). }
+  split.
+  - intros Hl. destruct (decide (k ∈ f <$> moved)) as [Hin|Hnin].
+    + apply elem_of_list_fmap in Hin as ([w x] & -> & Hin).
+      rewrite (foldr_insert_in f fst moved kept (w, x) Hnd Hin) in Hl. cbn [fst] in Hl. injection Hl as ->.
+      exists x. rewrite <- (Hf _ _ Hin). by apply Hmoved in Hin as [? _].
+    + rewrite foldr_insert_notin in Hl by done. apply Hkept in Hl as [Hk Hc].
+      apply Hidx in Hk as (x & Hx & Hp). exists x. split; [done|].
+      unfold moved_path. by rewrite Hp, (Hc x Hx Hp).
+  - intros (x & Hx & Hk). destruct (is_under (w_path x) old) eqn:Hu.
+    + assert (Hin : (wd, x) ∈ moved) by by apply Hmoved.
+      rewrite <- Hk, <- (Hf _ _ Hin). apply (foldr_insert_in f fst moved kept (wd, x) Hnd Hin).
+    + assert (Hk' : w_path x = k) by (unfold moved_path in Hk; by rewrite Hu in Hk).
+      rewrite foldr_insert_notin.
+      * apply Hkept. split; [apply Hidx; eauto|]. intros x' Hx' _. congruence.
+      * intros ([w' x'] & Heq & Hin)%elem_of_list_fmap. rewrite (Hf _ _ Hin) in Heq.
+        apply Hmoved in Hin as [Hx' Hu']. cbn [snd] in *.
+        assert (Hm : moved_path old new (w_path x) = moved_path old new (w_path x')) by congruence.
+        apply (Hinj _ _ _ _ Hx Hx') in Hm. congruence.
 Qed.
 
 (* ------------------------------------------------------------------ *)
@@ -554,7 +648,7 @@ Example ex_rewrite :
   let W' := rewrite_paths ex_W 1 "t/dir1" "t/mv" in
   (λ x, (x.1, w_path x.2)) <$> map_to_list (t_wd W')
     = [(1, "t"); (3, "t/dir10"); (5, "t2"); (2, "t/mv"); (4, "t/mv/sub")]
-  ∧ t_path W' = t_path ex_W.
+  ∧ map_to_list (t_path W') = [("t", 1); ("t2", 5); ("t/dir10", 3); ("t/mv", 2); ("t/mv/sub", 4)].
 Proof. vm_compute. repeat split; reflexivity. Qed.
 
 (* a directory created under the recursive watch on "t" is registered under its true name *)
@@ -586,3 +680,4 @@ Print Assumptions rec_remove_exact.
 Print Assumptions rewrite_paths_exact.
 Print Assumptions rec_new_dir_registered.
 Print Assumptions rec_event_named_under_watch_path.
+Print Assumptions rekey_paths_index.
